@@ -31,7 +31,7 @@ ASSUMPTIONS = ["type-consistent values", "the pure Lean model has no object iden
                "clone(into=Subclass): the clone must read like the original wherever the original defines a setting; "
                "settings only the subclass defaults define are additions"]
 
-KNOWN_SIGS = ("C11-into-overwrites-defaults",)
+KNOWN_SIGS = ()  # the clone(into) overwrite was repaired in /repo; its signature is an ordinary failure again
 
 
 def gen_case(rng):
